@@ -558,6 +558,11 @@ func newSSAStyleFromString(content string, format map[int]string) (s *ssaStyle, 
 		// Bool
 		case ssaStyleFormatNameBold, ssaStyleFormatNameItalic, ssaStyleFormatNameStrikeout,
 			ssaStyleFormatNameUnderline:
+			// No value
+			if item == "" {
+				continue
+			}
+
 			// -1 is true and 0 is false, but any non-zero value (this package writes 1) is understood as true
 			var b bool
 			if v, errAtoi := strconv.Atoi(item); errAtoi == nil && v != 0 {
@@ -598,6 +603,11 @@ func newSSAStyleFromString(content string, format map[int]string) (s *ssaStyle, 
 		case ssaStyleFormatNameAlphaLevel, ssaStyleFormatNameAngle, ssaStyleFormatNameFontSize,
 			ssaStyleFormatNameScaleX, ssaStyleFormatNameScaleY,
 			ssaStyleFormatNameOutline, ssaStyleFormatNameShadow, ssaStyleFormatNameSpacing:
+			// No value
+			if item == "" {
+				continue
+			}
+
 			// Parse float
 			var f float64
 			if f, err = strconv.ParseFloat(item, 64); err != nil {
@@ -627,6 +637,11 @@ func newSSAStyleFromString(content string, format map[int]string) (s *ssaStyle, 
 		// Int
 		case ssaStyleFormatNameAlignment, ssaStyleFormatNameBorderStyle, ssaStyleFormatNameEncoding,
 			ssaStyleFormatNameMarginL, ssaStyleFormatNameMarginR, ssaStyleFormatNameMarginV:
+			// No value
+			if item == "" {
+				continue
+			}
+
 			// Parse int
 			var i int
 			if i, err = strconv.Atoi(item); err != nil {
